@@ -68,6 +68,84 @@ var regexpAll = regexp.MustCompile(`.*`)
 var regexPool = []string{`^e_`, `^w_`, `^n_`, `.*`, `a^`, `crl`, `(?i)E_`, `[a-c]`, `^e_.*[0-9]+`, `dnsname`, `^e_rsa_`,
 	`subject|issuer`, `ocsp`, `_san_`, `^.{0,20}$`, `x`, `^$`, `rfc`, `smime`, `^(e|n)_`}
 
+// randPattern draws a name pattern: the fixed pool, or an expression GROWN from listed names - whole names and
+// fragments of names (prefix, suffix, middle; fragments that are proper substrings of listed names must select
+// nothing when anchored at both ends), as pure literals with every anchoring style (^..$, \A..\z, ^(?:..)$, (?m)), as
+// unanchored literals, with flags, classes, wildcards, alternations, repetition and word boundaries. "Any regular
+// expression" cannot be enumerated; these are the shapes for which an implementation that second-guesses the regexp
+// engine (literal fast paths, prefix tests, case folding, caches keyed by the source text) can go wrong.
+func randPattern(rng *rand.Rand) *regexp.Regexp {
+	name := func() string { return Inv[rng.Intn(len(Inv))].Name }
+	frag := func() string {
+		n := name()
+		switch rng.Intn(5) {
+		case 0:
+			return n
+		case 1: // prefix
+			return n[:2+rng.Intn(len(n)-2)]
+		case 2: // suffix
+			return n[1+rng.Intn(len(n)-2):]
+		case 3: // up to a '_' boundary: "e_", "w_ext_", "e_crl_" ...
+			parts := strings.SplitAfter(n, "_")
+			return strings.Join(parts[:1+rng.Intn(len(parts))], "")
+		default: // middle
+			a := rng.Intn(len(n) - 1)
+			return n[a : a+1+rng.Intn(len(n)-a-1)]
+		}
+	}
+	q := regexp.QuoteMeta
+	var p string
+	switch rng.Intn(20) {
+	case 0, 1, 2, 3:
+		p = regexPool[rng.Intn(len(regexPool))]
+	case 4:
+		p = "^" + q(name()) + "$"
+	case 5:
+		p = "^" + q(frag()) + "$"
+	case 6:
+		p = `\A` + q(frag()) + `\z`
+	case 7:
+		p = "^(?:" + q(frag()) + ")$"
+	case 8:
+		p = q(frag())
+	case 9:
+		p = "^" + q(frag())
+	case 10:
+		p = q(frag()) + "$"
+	case 11:
+		p = "(?i)" + strings.ToUpper(q(frag()))
+	case 12:
+		f := []byte(frag())
+		k := rng.Intn(len(f))
+		p = q(string(f[:k])) + []string{".", "[a-z_]", "[^x]", `\w`, "(?:" + q(string(f[k:k+1])) + ")"}[rng.Intn(5)] + q(string(f[k+1:]))
+		if rng.Intn(2) == 0 {
+			p = "^" + p + "$"
+		}
+	case 13:
+		p = q(frag()) + "|" + q(frag())
+	case 14:
+		p = "^(" + q(name()) + "|" + q(name()) + ")$"
+	case 15:
+		p = "^" + q(frag()) + ".*" + q(frag()) + "$"
+	case 16:
+		p = "(?m)^" + q(frag()) + "$"
+	case 17:
+		p = `\b` + q(frag()) + `\b`
+	case 18:
+		p = q(frag()) + []string{"?", "+", "*", "{1}", "{2}", "{0,1}"}[rng.Intn(6)]
+		if rng.Intn(2) == 0 {
+			p = "^" + p + "$"
+		}
+	default:
+		p = "^" + q(frag()) + "$|^" + q(name()) + "$"
+	}
+	re, err := regexp.Compile(p)
+	if err != nil {
+		return regexpAll
+	}
+	return re
+}
+
 // randFilter draws FilterOptions over the live inventory. With hostile set
 // the options may also be illegal (unknown names, pattern + lists).
 func randFilter(rng *rand.Rand, hostile bool) lint.FilterOptions {
@@ -138,11 +216,7 @@ func randFilter(rng *rand.Rand, hostile bool) lint.FilterOptions {
 		usePattern = false
 	}
 	if usePattern {
-		p := regexPool[rng.Intn(len(regexPool))]
-		if rng.Intn(4) == 0 {
-			p = "^" + regexp.QuoteMeta(Inv[rng.Intn(len(Inv))].Name) + "$"
-		}
-		o.NameFilter = regexp.MustCompile(p)
+		o.NameFilter = randPattern(rng)
 	}
 	return o
 }
